@@ -23,8 +23,12 @@ package meta
 //@   ensures [C13] others-kept: forall f string :: f != finalizer ==> contains(result, f) == contains(finalizers, f)
 //@   ensures [C13] input-untouched: forall k int :: 0 <= k && k < len(finalizers) ==> finalizers[k] == old(finalizers[k])
 
-// TEMPORARILY ASSUMED (sets.String + two loops): union without duplicates, first list's order first
-//@ extern func MergeFinalizers
-//@   params finalizers1, finalizers2
+// union of the two lists: everything of the first, then what the second adds (C13, C16)
+//@ func MergeFinalizers
+//@   tags C13, C16
 //@   fresh result
-//@   ensures forall f string :: contains(result, f) == (contains(finalizers1, f) || contains(finalizers2, f))
+//@   loop 1 invariant -1 <= rangeindex && rangeindex < len(finalizers2)
+//@   loop 1 invariant forall k int :: {newFinalizers[k]} 0 <= k && k < len(newFinalizers) ==> contains(finalizers1, newFinalizers[k]) || contains(finalizers2, newFinalizers[k])
+//@   loop 1 invariant forall f string :: contains(finalizers1, f) ==> contains(newFinalizers, f)
+//@   loop 1 invariant forall k int :: {finalizers2[k]} 0 <= k && k <= rangeindex ==> contains(newFinalizers, finalizers2[k])
+//@   ensures [C13,C16] forall f string :: contains(result, f) == (contains(finalizers1, f) || contains(finalizers2, f))
